@@ -248,3 +248,21 @@ Print Assumptions C14_write_arming_both_refuted.
 Example C14_example_silent_reader :
   dl_read (silent_reader WriteOnly (mkDL 0 0) 1000 [20000; 40000; 55000]) = 61000.
 Proof. vm_compute. reflexivity. Qed.
+
+(* ------------------------------------------------------------------ the timeout APPLIED is the configured one
+   With the read deadline armed before every header read, a reader whose successive messages are never more than
+   the read timeout (2 x the enforced KeepAlive interval) apart is never cut off — whatever the pattern of arrivals.
+   False of lazy re-arming (only when less than half the timeout is left): a message at 0.4 T, then silence of 0.7 T.
+   checks/c14.py: at every Read call of the running client the read deadline in force leaves the whole timeout;
+   scaled run with messages at 0 / 0.3 T / 0.45 T / 1.25 T. *)
+Theorem C14_silence_within_timeout_never_resets : forall arrivals t,
+  silences_within_timeout t arrivals -> alive Always (t + read_timeout_ms) arrivals = true.
+Proof. exact always_rearmed_survives. Qed.
+Print Assumptions C14_silence_within_timeout_never_resets.
+
+Theorem C14_lazy_rearm_refuted :
+  silences_within_timeout 0 [24000; 66000] /\
+  alive Lazy (0 + read_timeout_ms) [24000; 66000] = false /\
+  alive Always (0 + read_timeout_ms) [24000; 66000] = true.
+Proof. exact lazy_rearm_refuted. Qed.
+Print Assumptions C14_lazy_rearm_refuted.
